@@ -1326,10 +1326,29 @@ func analyseChanConfinement(as AnalysisSpec, progs []*Program, cs *Contracts, fu
 					switch y := u.(type) {
 					case *ssa.Call:
 						name := ""
+						if bi, isBuiltin := y.Call.Value.(*ssa.Builtin); isBuiltin && (bi.Name() == "cap" || bi.Name() == "len") {
+							continue // asking for its capacity / length hands the channel to nobody
+						}
 						if y.Call.IsInvoke() {
 							name = ifaceMethodKey(y.Common())
 						} else if sc := y.Call.StaticCallee(); sc != nil {
 							name = sc.Name()
+							// an unexported helper that is verified inside this function (inlined everywhere)
+							// and only receives from the channel keeps it confined
+							if cs.Funcs[progs[0].FuncKey(sc)] == nil && InlinedEverywhere(progs[0], sc) {
+								okHelper := true
+								for ai, a := range y.Call.Args {
+									if a != ssa.Value(x) || ai >= len(sc.Params) {
+										continue
+									}
+									if !onlyReceivedFrom(sc.Params[ai]) {
+										okHelper = false
+									}
+								}
+								if okHelper {
+									continue
+								}
+							}
 						}
 						if !strings.HasSuffix(name, okCallee) {
 							o.Result, o.Why = "failed", "passed to "+name+" at "+progs[0].Pos(y.Pos())
@@ -1882,4 +1901,56 @@ func analyseParamFlow(as AnalysisSpec, progs []*Program, cs *Contracts, funcs []
 	}
 	ar.Summary = fmt.Sprintf("%d functions checked for the flow of parameter %s", len(as.Functions), as.Args["param"])
 	return ar
+}
+
+// onlyReceivedFrom: a channel parameter whose only uses are receives (plain or in a select) and len/cap.
+func onlyReceivedFrom(p *ssa.Parameter) bool {
+	seen := map[ssa.Value]bool{}
+	var ok func(v ssa.Value) bool
+	ok = func(v ssa.Value) bool {
+		if seen[v] || v.Referrers() == nil {
+			return true
+		}
+		seen[v] = true
+		for _, r := range *v.Referrers() {
+			switch x := r.(type) {
+			case *ssa.DebugRef:
+			case *ssa.Store:
+				al, isAl := x.Addr.(*ssa.Alloc)
+				if !isAl || x.Val != v || addrEscapes(al, al.Referrers(), 0) {
+					return false
+				}
+				for _, rr := range *al.Referrers() {
+					if u, isU := rr.(*ssa.UnOp); isU && u.Op == token.MUL {
+						if !ok(u) {
+							return false
+						}
+					}
+				}
+			case *ssa.UnOp:
+				if x.Op != token.ARROW {
+					return false
+				}
+			case *ssa.Select:
+				for _, st := range x.States {
+					if st.Chan == v && st.Dir != types.RecvOnly {
+						return false
+					}
+				}
+			case *ssa.ChangeType:
+				if !ok(x) {
+					return false
+				}
+			case *ssa.Call:
+				bi, isB := x.Call.Value.(*ssa.Builtin)
+				if !isB || (bi.Name() != "len" && bi.Name() != "cap") {
+					return false
+				}
+			default:
+				return false
+			}
+		}
+		return true
+	}
+	return ok(p)
 }
